@@ -354,6 +354,43 @@ def _recorded_not_printed(skv):
                     hits.append((key, show(c)[:120]))
     return hits
 
+
+def _known_wrapper(program: Program, f, call: ast.Call, name: str, vw) -> bool:
+    """an enclosing test establishes that <name> is a value wrapper: isinstance(<name>, <ValueWrapper subclass>) or
+    `type(<name>) in (ValueWrapper, self._wrapper_cls, ...)` / `type(<name>) is ...`"""
+    parents = {}
+    for n in ast.walk(f.node):
+        for ch in ast.iter_child_nodes(n):
+            parents[ch] = n
+
+    def wrapper_expr(e) -> bool:
+        if isinstance(e, ast.Name):
+            r = program.resolve_global(f.module, e.id)
+            return bool(r and r[0] == "class" and r[1].is_subclass_of(vw)) or e.id == "wrapper_cls"
+        if isinstance(e, ast.Attribute):
+            return e.attr in ("_wrapper_cls", "wrapper_cls")
+        if isinstance(e, (ast.Tuple, ast.List, ast.Set)):
+            return bool(e.elts) and all(wrapper_expr(x) for x in e.elts)
+        return False
+    cur = call
+    while cur in parents:
+        par = parents[cur]
+        test = None
+        if isinstance(par, (ast.If, ast.IfExp)) and cur is not par.test:
+            in_body = cur is par.body if isinstance(par, ast.IfExp) else any(cur is s_ or _contains(s_, cur) for s_ in par.body)
+            test = par.test if in_body else None
+        if test is not None:
+            for t in ast.walk(test):
+                if (isinstance(t, ast.Call) and isinstance(t.func, ast.Name) and t.func.id == "isinstance" and len(t.args) == 2
+                        and isinstance(t.args[0], ast.Name) and t.args[0].id == name and wrapper_expr(t.args[1])):
+                    return True
+                if (isinstance(t, ast.Compare) and len(t.ops) == 1 and isinstance(t.ops[0], (ast.In, ast.Is, ast.Eq))
+                        and isinstance(t.left, ast.Call) and isinstance(t.left.func, ast.Name) and t.left.func.id == "type"
+                        and t.left.args and isinstance(t.left.args[0], ast.Name) and t.left.args[0].id == name and wrapper_expr(t.comparators[0])):
+                    return True
+        cur = par
+    return False
+
 def check(program: Program, run: Run) -> None:
     run.explanation = (
         "Structural necessary conditions for placeholder/value agreement, decided on render skeletons and the syntax tree: "
@@ -482,6 +519,10 @@ def check(program: Program, run: Run) -> None:
         if any(k.arg == "allow_parametrize" and isinstance(k.value, ast.Constant) and k.value.value is False for k in call.keywords):
             # never handed to the parameterizer: whatever it wraps is written inline
             run.ob("C04/R3 wrapped value never reaches the value list (allow_parametrize=False)", subject, True, where=f.loc(call), nontrivial=False)
+            continue
+        if isinstance(arg, ast.Attribute) and arg.attr == "value" and isinstance(arg.value, ast.Name) and _known_wrapper(program, f, call, arg.value.id, program.cls("ValueWrapper")):
+            # re-wrapping the value of an object known to be a value wrapper: plain by induction over this very rule
+            run.ob("C04/R3 wrapped value is plain data (the value of an existing value wrapper)", subject, True, where=f.loc(call), nontrivial=False)
             continue
         var = arg.id if isinstance(arg, ast.Name) else None
         # inside the parameterised world the guard has to exclude every Node (a `Term` test lets Interval / Table /
